@@ -700,6 +700,10 @@ impl Engine for Hist {
             if flex_top && nn > 4100 {
                 continue; // a chain of tens of thousands of items makes every step quadratic; stated in DESIGN.md
             }
+            // the rungs above 1 100 cost seconds per state: only for the containers themselves (root vec / str)
+            if nn > 1100 && !(kind == "vec" || kind == "str") {
+                continue;
+            }
             let v = match scaled_value(&d, nn) {
                 Some(v) => v,
                 None => continue,
